@@ -8,7 +8,8 @@
 //!   {"stdout_file": path, "stderr": text, "status": n, "delay_ms": n,
 //!    "record": path,            -- append a JSON line {argv, env subset, stdin_len, stdin_file}
 //!    "read_stdin": bool, "stdin_file": path, "read_lines": n (stop reading after n lines),
-//!    "exit_stamp": path         -- file created just before exiting (after delay)}
+//!    "exit_stamp": path         -- file created just before exiting (after delay),
+//!    "stdout_fifo": path        -- copy this FIFO to stdout as bytes arrive, until end of file}
 //! * otherwise exits 127 so that an unexpected invocation is visible.
 use std::io::{Read, Write};
 use std::process::{Command, Stdio};
@@ -93,6 +94,24 @@ fn main() {
             let line = serde_json::json!({"argv": args, "env": env, "stdin_len": stdin_len, "pid": std::process::id()});
             if let Ok(mut f) = std::fs::OpenOptions::new().create(true).append(true).open(p) {
                 let _ = writeln!(f, "{}", line);
+            }
+        }
+        // copy a FIFO to stdout as the bytes arrive (the test decides when the tool "pauses")
+        if let Some(p) = v.get("stdout_fifo").and_then(|x| x.as_str()) {
+            if let Ok(mut f) = std::fs::File::open(p) {
+                let so = std::io::stdout();
+                let mut so = so.lock();
+                let mut buf = [0u8; 4096];
+                loop {
+                    match f.read(&mut buf) {
+                        Ok(0) | Err(_) => break,
+                        Ok(n) => {
+                            if so.write_all(&buf[..n]).is_err() || so.flush().is_err() {
+                                break;
+                            }
+                        }
+                    }
+                }
             }
         }
         if let Some(p) = v.get("stdout_file").and_then(|x| x.as_str()) {
